@@ -54,6 +54,9 @@ def run(ctx):
                     m, {"class": m["class"].split(":")[0], "own_key_exchange": m["own_key_exchange"]})
     seeds = [ctx.seed * 1000 + 700 + i for i in range(6 if q else 60)]
     lines, sums = cc.run_scenarios(ctx, seeds, 150 if q else 400)
+    l2, s2 = cc.run_scenarios(ctx, [x + 300 for x in seeds[:max(2, len(seeds) // 3)]], 150 if q else 400, extra=cc.VRF)
+    lines += l2
+    sums += s2
     rej, nv, nev = cc.validate(ctx, lines, "TraceRegistry", "traceregistry.cfg")
     for seg in rej:
         vlib.report(ctx, "registry state breaks the rule: %s at %s" % (seg["why"], seg["failing_event"][:700]),
